@@ -311,7 +311,10 @@ def export_roundtrip(binary, workdir, name, steps, cut, entry):
         if st["op"] in ("block", "blocks"):
             rest.append({"op": "state"})
     out = []
-    rx = run_replica(binary, workdir, name, steps[:cut] + [{"op": "export", "to": exp}, {"op": "stores"}] + rest, "plain")
+    # half of the exports are taken right before a block in which something is scheduled (the schedule entry of the imported
+    # chain's very first block)
+    pre = [{"op": "toboundary", "n": 4000}] if entry.get("boundary") else []
+    rx = run_replica(binary, workdir, name, steps[:cut] + pre + [{"op": "export", "to": exp}, {"op": "stores"}] + rest, "plain")
     ex = [r for r in rx if r["op"] == "export"]
     if not ex or not os.path.exists(exp) or not ex[0].get("state"):
         entry["export"] = "failed"
@@ -400,6 +403,7 @@ def random_streams(binary, workdir, tier, seed):
                 if len(idx) > 4:
                     cut = rnd.choice(idx[2:-1]) + 1
                     entry["export_after_step"] = cut
+                    entry["boundary"] = rnd.random() < 0.5
                     violations += export_roundtrip(binary, workdir, name + "x", plain, cut, entry)
                 runs.append(entry)
     finally:
@@ -455,12 +459,17 @@ def replicas_run(binary, workdir, tier, seed):
         if r["op"] == "state" and h is not None:
             statesA[h] = r["state"]
     c18 = []
-    for gap in ([5, 10] if tier == "quick" else [3, 4, 5, 7, 8, 9, 10]):
-        name = "X%d" % gap
+    # (gap, boundary): boundary = empty blocks first, until the next block is one in which something is scheduled, so that the
+    # imported chain's very first block has a schedule entry to honour (only the imported state is compared then: the
+    # reference run A has not taken those extra blocks)
+    points = [(5, False), (10, False), (10, True)] if tier == "quick" else [(g, False) for g in (3, 4, 5, 7, 8, 9, 10)] + [(5, True), (9, True), (10, True)]
+    for gap, boundary in points:
+        name = "X%d%s" % (gap, "b" if boundary else "")
         exp = os.path.join(workdir, name + ".genesis.json")
         steps = script_for(stream, [], states_from=gap, export_at=gap, export_to=exp)
         cut = next(i for i, s in enumerate(steps) if s["op"] == "export")
-        rx = run_replica(binary, workdir, name, steps[: cut + 1] + [{"op": "stores"}], "plain")
+        pre = [{"op": "toboundary", "n": 4000}] if boundary else []
+        rx = run_replica(binary, workdir, name, steps[:cut] + pre + [steps[cut], {"op": "stores"}], "plain")
         ex = [r for r in rx if r["op"] == "export"]
         if not ex or not os.path.exists(exp):
             violations.append({"formula": "C18_ExportSucceeds", "detail": "export failed at gap %d: %s" % (gap, [r.get("note") for r in rx][-1:]), "script": name})
@@ -469,7 +478,7 @@ def replicas_run(binary, workdir, tier, seed):
         hexp = before["h"]
         ry = run_replica(binary, workdir, name + "i", [{"op": "state"}, {"op": "stores"}] + steps[cut + 1:], "plain", genesis=exp, initial=hexp + 1)
         sts = [r for r in ry if r["op"] == "state"]
-        entry = {"gap": gap, "height": hexp, "import_diff": [], "continuation_diff": []}
+        entry = {"gap": gap, "boundary": boundary, "height": hexp, "import_diff": [], "continuation_diff": []}
         if sts:
             entry["import_diff"] = state_diff(before, dict(sts[0]["state"], h=before["h"]))
         stx = [r["stores"] for r in rx if r["op"] == "stores"]
@@ -483,7 +492,7 @@ def replicas_run(binary, workdir, tier, seed):
         for r in ry:
             if r["op"] in ("block", "blocks") and r.get("block"):
                 hh = r["block"]["height"]
-            if r["op"] == "state" and hh is not None and hh in statesA:
+            if r["op"] == "state" and hh is not None and hh in statesA and not boundary:
                 dd = state_diff(statesA[hh], r["state"])
                 if dd:
                     entry["continuation_diff"].append({"height": hh, "fields": dd})
